@@ -421,7 +421,7 @@ var (
 	srcStrs   = []string{"$.src.s1", "$.src.s2", "$.src.strs[0]", "$.src.objs[0].k", "$.src.deep.a.s"}
 	srcBools  = []string{"$.src.b1", "$.src.b2"}
 	srcLists  = []string{"$.src.ints", "$.src.strs", "$.src.objs", "$.src.empty", "$.src.mixed"}
-	srcMaps   = []string{"$.src.m", "$.src.deep", "$.src.deep.a", "$.src.objs[0]"}
+	srcMaps   = []string{"$.src.m", "$.src.deep", "$.src.deep.a", "$.src.objs[0]", "$.src.mn1", "$.src.mn2"}
 	srcOther  = []string{"$.src.n1", "$.src.missing", "$.src", "$", "@", "@.src", "$.asm.r0", "$.asm"}
 )
 
@@ -580,6 +580,9 @@ func (g *gen) expr(kind string, depth int) any {
 			return []any{pick(g.t, []string{"array?", "bool?", "map?", "nil?", "null?", "num?", "string?", "time?"}, "n"), g.arg("any", depth-1)}
 		case 6:
 			if rapid.Bool().Draw(g.t, "inlist") {
+				if rapid.IntRange(0, 3).Draw(g.t, "mapmember") == 0 {
+					return []any{"include", []any{"list", g.arg("map", depth-1), g.arg("map", depth-1)}, g.arg("map", depth-1)}
+				}
 				return []any{"include", g.arg("list", depth-1), g.arg(pick(g.t, []string{"int", "str", "num"}, "k"), depth-1)}
 			}
 			return []any{"include", g.arg("str", depth-1), g.arg("str", depth-1)}
@@ -631,7 +634,11 @@ func (g *gen) expr(kind string, depth int) any {
 		return "$.src.objs"
 	case "map":
 		if leaf || rapid.Bool().Draw(g.t, "mappath") {
-			return pick(g.t, append([]any{map[string]any{"k": int64(1)}, map[string]any{}}, toAny(srcMaps)...), "map")
+			return pick(g.t, append([]any{map[string]any{"k": int64(1)}, map[string]any{},
+				// same size, different key sets, null under the unmatched key; nested likewise
+				map[string]any{"a": nil, "b": int64(1)}, map[string]any{"b": int64(1), "c": int64(2)}, map[string]any{"a": nil}, map[string]any{"b": nil},
+				map[string]any{"m": map[string]any{"x": nil}, "l": []any{int64(1)}}, map[string]any{"m": map[string]any{"y": nil}, "l": []any{int64(1)}},
+			}, toAny(srcMaps)...), "map")
 		}
 		return []any{"get", pick(g.t, srcMaps, "getpath")}
 	}
@@ -703,6 +710,8 @@ func drawRoot(t *rapid.T) map[string]any {
 		"empty": []any{},
 		"mixed": []any{int64(1), "a", nil, true, 1.5},
 		"m":     map[string]any{"x": int64(1), "y": "why"},
+		"mn1":   map[string]any{"a": nil, "b": int64(1)},
+		"mn2":   map[string]any{"b": int64(1), "c": int64(2)},
 		"deep":  map[string]any{"a": map[string]any{"n": int64(4), "s": "deep"}, "l": []any{int64(1)}},
 	}
 	n := rapid.IntRange(0, 4).Draw(t, "nints")
